@@ -682,7 +682,9 @@ func runC01(r *Run) {
 		r.Count("doh:rounds")
 		r.Trace()
 	}
-	r.Finish("part 1: scripted histories on one TraditionalDnsConn (stream / datagram): callers with colliding ids {0, 0xFFFF, 1, ...} enter, are answered in any order, late, twice, or give up; replies with ids nobody waits for; every tenth history keeps one query outstanding while 65533..65535 further queries turn the 16-bit counter once round; part 2: 5..64 concurrent callers over PipelineTransport, the server permutes, duplicates and injects stray ids; part 3: histories of query / oldest-owed reply / give up / surplus reply over ReuseConnTransport; part 4: concurrent DoH exchanges through an in-process RoundTripper answering out of order with id 0; released buffers are overwritten (pool.ReleaseBuf wrapped)")
+	// ---------------------------------------------------------- part 5: upstreams built by NewUpstream against a UDP+TCP loopback server
+	c01Upstreams(r)
+	r.Finish("part 1: scripted histories on one TraditionalDnsConn (stream / datagram): callers with colliding ids {0, 0xFFFF, 1, ...} enter, are answered in any order, late, twice, or give up; replies with ids nobody waits for; every tenth history keeps one query outstanding while 65533..65535 further queries turn the 16-bit counter once round; part 2: 5..64 concurrent callers over PipelineTransport, the server permutes, duplicates and injects stray ids; part 3: histories of query / oldest-owed reply / give up / surplus reply over ReuseConnTransport; part 4: concurrent DoH exchanges through an in-process RoundTripper answering out of order with id 0; part 5: upstream.NewUpstream(udp:// with its TCP fallback, with and without a TCP listener, tcp://, tcp+pipeline://) against a loopback server on one UDP+TCP port: bursts of 4..31 concurrent callers, per query the UDP reply is plain or has TC set, late, doubled or preceded by a stray id, the TCP side answers / closes / sends half a frame / stalls / refuses; every returned reply must be byte for byte one the server produced for that question, with the caller's id, and must still be so after 20..59 further exchanges whose replies the harness releases to the pool; released buffers are overwritten (pool.ReleaseBuf wrapped)")
 }
 
 // rt01 answers DoH GET requests in process, after a random delay, with id 0.
